@@ -117,7 +117,10 @@ def run_entry(res, idx):
             except Exception:
                 R.add_outcome(res, "unparsed")
                 continue
-            for ver in versions_for(meta):
+            vers = list(versions_for(meta))
+            # a whole-number version is also supplied as a Python int (8 as well as 8.0)
+            vers += [int(v) for v in vers if v is not None and float(v).is_integer() and not isinstance(v, int)]
+            for ver in vers:
                 cat, msg = judge(d, tree.type, ver)
                 res["evals"] += 1
                 n += 1
